@@ -30,6 +30,8 @@ const CHECKED: bool = cfg!(debug_assertions); // the dev profile of the harness 
 trait Flt: Sample<Float = Self, Signed = Self> + dasp_sample::FloatSample + Copy + PartialOrd + 'static {
     const NAME: &'static str;
     const U: f64;
+    /// smallest positive subnormal: the absolute rounding granularity below the normal range
+    const TINY: f64;
     fn bits(self) -> u64;
     fn from_b(b: u64) -> Self;
     fn f(self) -> f64;
@@ -39,6 +41,7 @@ trait Flt: Sample<Float = Self, Signed = Self> + dasp_sample::FloatSample + Copy
 impl Flt for f32 {
     const NAME: &'static str = "f32";
     const U: f64 = 5.960464477539063e-8;
+    const TINY: f64 = 1.5e-45;
     fn bits(self) -> u64 { self.to_bits() as u64 }
     fn from_b(b: u64) -> Self { f32::from_bits(b as u32) }
     fn f(self) -> f64 { self as f64 }
@@ -48,6 +51,7 @@ impl Flt for f32 {
 impl Flt for f64 {
     const NAME: &'static str = "f64";
     const U: f64 = 1.1102230246251565e-16;
+    const TINY: f64 = 5e-324;
     fn bits(self) -> u64 { self.to_bits() }
     fn from_b(b: u64) -> Self { f64::from_bits(b) }
     fn f(self) -> f64 { self }
@@ -274,6 +278,7 @@ fn env_oracles<F>(st: &mut Stream, tally: &mut Tally, det: Det, a: f32, r: f32, 
 where F: Frame + 'static, F::Sample: Flt, <F::Float as Frame>::Sample: Flt {
     let ch = F::CHANNELS;
     let u = <F::Sample as Flt>::U;
+    let tiny = <F::Sample as Flt>::TINY;
     let mut last = vec![0.0f64; ch];
     let (mut att, mut rel) = (a, r);
     // independent detected values for the RMS detector: a detector of its own (C11's subject), fed the same frames
@@ -301,7 +306,8 @@ where F: Frame + 'static, F::Sample: Flt, <F::Float as Frame>::Sample: Flt {
                     let (g, gtol) = gain_ref(frames);
                     // (1) the formula
                     let exp = d + g * (l - d);
-                    let tol = 4.0 * u * (d.abs() + (l - d).abs()) + (l - d).abs() * gtol + 1e-300;
+                    // three roundings (l - d, * g, d +): relative u each, or half the smallest subnormal when the result is subnormal
+                    let tol = 4.0 * u * (d.abs() + (l - d).abs()) + (l - d).abs() * gtol + 4.0 * tiny;
                     let dev = (e - exp).abs();
                     if dev / tol > tally.max_ratio { tally.max_ratio = dev / tol; }
                     if dev <= tol { st.oracle_ok(1); } else {
@@ -309,7 +315,7 @@ where F: Frame + 'static, F::Sample: Flt, <F::Float as Frame>::Sample: Flt {
                     }
                     // (2) between previous envelope and detected value; one ulp of slack only where g >= 1 - 2^-20
                     let (lo, hi) = if l < d { (l, d) } else { (d, l) };
-                    let slack = if g >= 1.0 - 9.6e-7 { st.count("between:one-ulp-tolerance"); 2.0 * u * hi.abs().max(lo.abs()) } else { 0.0 };
+                    let slack = if g >= 1.0 - 9.6e-7 { st.count("between:one-ulp-tolerance"); 4.0 * u * hi.abs().max(lo.abs()) } else { 0.0 };
                     if lo - slack <= e && e <= hi + slack { st.oracle_ok(1); } else {
                         st.oracle_fail("envelope output not between previous envelope and detected value", req, &format!("[{:e}, {:e}] (op #{}, channel {})", lo, hi, idx, c), &format!("{:e}", e));
                     }
@@ -325,15 +331,35 @@ where F: Frame + 'static, F::Sample: Flt, <F::Float as Frame>::Sample: Flt {
     }
 }
 
-fn gen_env_ops(rng: &mut Rng, is32: bool, ch: usize, len: usize) -> Vec<EOp> {
-    let times: [f32; 5] = [0.0, 0.5, 1.0, 10.0, 1e4];
+/// attack / release times: the ordinary ones and the rare values of the domain "times >= 0":
+/// +0.0, -0.0 (compares == 0 and >= 0), the smallest subnormal, a subnormal, 1e-30, huge values up to f32::MAX
+const TIMES: [f32; 5] = [0.0, 0.5, 1.0, 10.0, 1e4];
+fn special_times() -> [f32; 9] { [0.0, -0.0, f32::from_bits(1), 1e-40, 1e-30, 1e-3, 1e30, f32::MAX, 3.0e7] }
+fn time_class(x: f32) -> &'static str {
+    if x == 0.0 { if x.is_sign_negative() { "time:-0.0" } else { "time:+0.0" } }
+    else if x < f32::MIN_POSITIVE { "time:subnormal" } else if x < 1e-20 { "time:tiny" } else if x >= 1e20 { "time:huge" } else { "time:ordinary" }
+}
+/// a time for the constructor or a setter: ordinary, special, random, or one used before (returning to an earlier
+/// value, repeating the current one)
+fn pick_time(rng: &mut Rng, used: &mut Vec<f32>) -> f32 {
+    let r = rng.below(12);
+    let t = if r < 4 { *rng.pick(&TIMES) }
+        else if r < 7 { *rng.pick(&special_times()) }
+        else if r < 8 { (rng.f64_unit() * 50.0) as f32 }
+        else if !used.is_empty() { if rng.chance(1, 2) { used[0] } else { *rng.pick(&used[..]) } }
+        else { *rng.pick(&TIMES) };
+    used.push(t);
+    t
+}
+
+fn gen_env_ops(rng: &mut Rng, is32: bool, ch: usize, len: usize, used_a: &mut Vec<f32>, used_r: &mut Vec<f32>) -> Vec<EOp> {
     let style = rng.below(5);
     let mut level = vec![0.0f64; ch];
     let mut ops = Vec::new();
     for i in 0..len {
         let r = rng.below(100);
-        if r < 6 { ops.push(EOp::Attack(if rng.chance(1, 6) { (rng.f64_unit() * 50.0) as f32 } else { *rng.pick(&times) })); continue; }
-        if r < 12 { ops.push(EOp::Release(if rng.chance(1, 6) { (rng.f64_unit() * 50.0) as f32 } else { *rng.pick(&times) })); continue; }
+        if r < 6 { ops.push(EOp::Attack(pick_time(rng, used_a))); continue; }
+        if r < 12 { ops.push(EOp::Release(pick_time(rng, used_r))); continue; }
         let fr: Vec<u64> = (0..ch).map(|c| {
             let x = match style {
                 0 => rng.f64_unit() * 2.0 - 1.0,
@@ -351,12 +377,15 @@ fn gen_env_ops(rng: &mut Rng, is32: bool, ch: usize, len: usize) -> Vec<EOp> {
 
 fn env_case<F>(st: &mut Stream, tally: &mut Tally, rng: &mut Rng, sig: bool)
 where F: Frame + 'static, F::Sample: Flt, <F::Signed as Frame>::Sample: Flt, <F::Float as Frame>::Sample: Flt {
-    let times: [f32; 5] = [0.0, 0.5, 1.0, 10.0, 1e4];
     let is32 = <F::Sample as Flt>::NAME == "f32";
     let det = *rng.pick(&[Det::Fw, Det::Fw, Det::Ph, Det::Nh, Det::Rms(1), Det::Rms(4)]);
-    let (a, r) = (*rng.pick(&times), *rng.pick(&times));
+    let (mut used_a, mut used_r) = (Vec::new(), Vec::new());
+    let (a, r) = (pick_time(rng, &mut used_a), pick_time(rng, &mut used_r));
     let len = 1 + rng.usize_below(50);
-    let ops = gen_env_ops(rng, is32, F::CHANNELS, len);
+    let ops = gen_env_ops(rng, is32, F::CHANNELS, len, &mut used_a, &mut used_r);
+    for op in &ops { match op { EOp::Attack(x) | EOp::Release(x) => st.count(&format!("set {}", time_class(*x))), _ => {} } }
+    for w in [&used_a, &used_r] { if w.len() >= 3 && w[1..w.len() - 1].iter().any(|x| x.to_bits() != w[0].to_bits()) && w[2..].iter().any(|x| x.to_bits() == w[0].to_bits()) { st.count("setter sequence returns to the constructor's value"); } }
+    for w in [&used_a, &used_r] { if w.windows(2).any(|p| p[0].to_bits() == p[1].to_bits()) { st.count("setter repeats the current value"); } }
     let extra = if sig { rng.usize_below(4) } else { 0 };
     let mut req = format!("{} {} {} {} {} {}", if sig { "envsig" } else { "env" }, <F::Sample as Flt>::NAME, det.name(), F::CHANNELS, a.to_bits(), r.to_bits());
     for op in &ops {
@@ -371,7 +400,7 @@ where F: Frame + 'static, F::Sample: Flt, <F::Signed as Frame>::Sample: Flt, <F:
     let nexts = ops.iter().filter(|o| matches!(o, EOp::Next(_))).count();
     let changes = ops.len() - nexts;
     st.count(&format!("det:{}", det.name())); st.count(&format!("fmt:{}", <F::Sample as Flt>::NAME)); st.count(&format!("ch:{}", F::CHANNELS));
-    st.count(&format!("attack:{}", a)); st.count(&format!("release:{}", r));
+    st.count(&format!("new attack {}", time_class(a))); st.count(&format!("new release {}", time_class(r)));
     match res {
         None => { st.case(&req, "panic", true, ops.len() as u64); st.oracle_fail("Detector panicked", &req, "no panic", "panic"); }
         Some(outs) => {
@@ -410,8 +439,8 @@ fn run_env(a: &Args, sig: bool) {
         env_case::<f64>(&mut st, &mut tally, &mut rng, sig);
         env_case::<[f64; 2]>(&mut st, &mut tally, &mut rng, sig);
     }
-    st.note(&format!("formula oracle: |out - (d + g (l - d))| <= 4u(|d| + |l - d|) + |l - d| * gtol, g = exp(-1/frames) in f64, gtol = g (|1/frames| + 2) 2.4e-7 (f32 evaluation of the gain); largest observed deviation / tolerance = {:.4}", tally.max_ratio));
-    st.note("betweenness is checked exactly (no tolerance) for every gain < 1 - 2^-20, i.e. for every attack/release value generated here; the one-ulp tolerance branch is labelled in the histogram when taken");
+    st.note(&format!("formula oracle: |out - (d + g (l - d))| <= 4u(|d| + |l - d|) + |l - d| * gtol + 4 * (smallest subnormal), g = exp(-1/frames) in f64, gtol = g (|1/frames| + 2) 2.4e-7 (f32 evaluation of the gain); largest observed deviation / tolerance = {:.4}", tally.max_ratio));
+    st.note("betweenness is checked exactly (no tolerance) for every gain < 1 - 2^-20; where the f32 gain rounds to >= 1 - 2^-20 (times >= ~1e6) a tolerance of 4u*max(|l|,|d|) applies, counted in the histogram (between:one-ulp-tolerance)");
     st.finish();
 }
 
